@@ -38,9 +38,7 @@ func registerAttempt(c ArmCase, late, skew int) bool {
 				time.Sleep(time.Microsecond)
 			}
 		}
-		for i := 0; i < skew; i++ {
-			armSink1++
-		}
+		armSpin(skew)
 		res.Invalidate()
 	}()
 	for atomic.LoadInt32(&spinning) == 0 {
@@ -50,9 +48,7 @@ func registerAttempt(c ArmCase, late, skew int) bool {
 		switch atomic.AddInt32(&runs, 1) {
 		case 1:
 			atomic.StoreInt32(&ready, 1)
-			for i := 0; i < late; i++ {
-				armSink2++
-			}
+			armSpin(late)
 			if c.ViaCache {
 				if _, err := reactive.Cache(ctx, "k", func(ctx context.Context) (interface{}, error) {
 					reactive.AddDependency(ctx, res, nil)
@@ -89,7 +85,15 @@ type ArmCase struct {
 	Step     int  `json:"step"`
 }
 
-var armSink1, armSink2 int
+var armSink uint64
+
+func armSpin(n int) {
+	var x uint64
+	for i := 0; i < n; i++ {
+		x += uint64(i)
+	}
+	atomic.AddUint64(&armSink, x)
+}
 
 func armAttempt(c ArmCase, late, skew int) bool {
 	res := reactive.NewResource()
@@ -105,9 +109,7 @@ func armAttempt(c ArmCase, late, skew int) bool {
 				time.Sleep(time.Microsecond)
 			}
 		}
-		for i := 0; i < skew; i++ {
-			armSink1++
-		}
+		armSpin(skew)
 		if c.Strobe {
 			res.Strobe()
 		} else {
@@ -131,9 +133,7 @@ func armAttempt(c ArmCase, late, skew int) bool {
 		switch atomic.AddInt32(&runs, 1) {
 		case 1:
 			atomic.StoreInt32(&ready, 1)
-			for i := 0; i < late; i++ {
-				armSink2++
-			}
+			armSpin(late)
 		case 2:
 			close(second)
 		}
